@@ -26,7 +26,7 @@ BOUNDS = {
               "_normalize, failing calls (DomainError / CoordinateMissing), constructor side effects, long-lived Partial/Differential objects queried "
               "repeatedly, outputs of earlier simplifications used as operands}; 5 pools sharing 1-2 sub-expression objects (incl. structurally equal "
               "twins); stratified sample", "outside": "longer histories, larger pools, more than two points"},
-    "thorough": {"inductive_step": "8 pools x 3 targets x 9 operations", "histories": "all length-2 histories over the alphabet x targets, a seeded sample of length-3 histories, all long-lived-object and "
+    "thorough": {"inductive_step": "8 pools x 3 targets x 9 operations", "histories": "all length-2 histories over the alphabet x targets, a seeded sample of 1600 length-3 and length-4 histories, all long-lived-object and "
                  "composed-output histories; 5 pools", "outside": "longer histories, larger pools, more than two points"},
 }
 ASSUMPTIONS = ["bound argument (DESIGN.md 6/C09): every memo field of a node is overwritten or cleared by the last operation that reaches it, so histories of "
@@ -94,10 +94,10 @@ def jobs(tier, seed):
     else:
         sel = l2[::3] + ll + co
         rng3 = random.Random(seed)
-        for _ in range(400):
-            pool = rng3.choice(POOLS)
+        for n_h in range(1600):
+            pool = rng3.choice(POOLS + ["G", "H", "I"])
             h = []
-            for i in range(2):
+            for i in range(2 if n_h % 3 else 3):
                 k = rng3.choice(PRE + ["embed"])
                 h.append(op(k, rng3.choice(["e1", "e2", "e3", "s"]), rng3.choice(["q", "q", "m", "p"])))
             h.append(op(rng3.choice(FINAL), rng3.choice(["e1", "e2", "e3"]), "p"))
